@@ -3,6 +3,7 @@ import os
 
 HARNESS = {
     "h_posit": dict(src="h_posit.cpp"),
+    "h_quire": dict(src="h_quire.cpp"),
 }
 
 POSIT_SMALL = [(n, es) for n in range(2, 9) for es in range(0, 6) if es <= n - 2 or (n, es) in ((2, 0),)]
@@ -52,6 +53,27 @@ def corpus_jobs(prop, path, exes):
 HOOK_COMMITS = []
 NOT_YET = {}
 
+QUIRE_CFGS = [(4,0,2),(5,1,3),(6,1,3),(6,2,2),(8,0,4),(8,1,6),(8,2,4),(8,1,30),(12,1,5),(16,1,10),(16,2,30),(32,2,30)]
+FDP_CFGS = [(8,0,20),(8,1,20),(8,2,20),(16,1,20),(16,2,20),(32,2,20)]
+
+
+def quire_streams(tier, seed, exes):
+    exe = exes["h_quire"]
+    jobs = []
+    nh, np_, nf = (400, 1500, 3000) if tier == "quick" else (12000, 40000, 80000)
+    shards = 1 if tier == "quick" else 4
+    for (n, es, c) in QUIRE_CFGS:
+        for s in range(shards):
+            env = {"VERIF_SEED": str(seed * 100 + s)}
+            jobs.append(dict(exe=exe, args=["hist", str(n), str(es), str(c), str(nh // shards)], env=env, label=f"quire<{n},{es},{c}> histories shard {s}"))
+            jobs.append(dict(exe=exe, args=["part", str(n), str(es), str(c), str(np_ // shards)], env=env, label=f"quire<{n},{es},{c}> partitions shard {s}"))
+    for (n, es, c) in FDP_CFGS:
+        for s in range(shards):
+            env = {"VERIF_SEED": str(seed * 100 + s)}
+            jobs.append(dict(exe=exe, args=["fdp", str(n), str(es), str(c), str(nf // shards)], env=env, label=f"fdp posit<{n},{es}> shard {s}"))
+    return jobs
+
+
 PROPS = {
     "C01": dict(
         harness=["h_posit"],
@@ -65,5 +87,18 @@ PROPS = {
         explanation="posit + - * / reciprocal negate abs: Lean model of decode/module_*/convert_ vs. the Posit-Standard "
                     "rounding relation; correspondence by exhaustive enumeration of small configurations and structured sampling of large ones",
         assumptions=["the compiled code behaves like the model on inputs that were not explored"],
+    ),
+    "C05": dict(
+        harness=["h_quire"],
+        streams=quire_streams,
+        level="proof",
+        level_text="refinement proof in Lean: the three-segment ripple-carry/borrow accumulator of the model equals an exact integer "
+                   "accumulator for every history that stays within capacity (induction over histories of any length), hence order- and "
+                   "partition-independence; the compiled quire is tied to the model by differential histories with the state compared after every step",
+        level_note="trusted: Lean kernel, hand-written model of quire.hpp (segment-level, not bit-loop-level), g++; the final rounding "
+                   "inherits the status of C01's convert_ theorem",
+        explanation="quire += / -= of posits and exact products, quire += quire, fdp: model state (sign, lower, upper, capacity) and rounded "
+                    "posit compared after EVERY step of random histories with cancellations, sign flips and carries into the capacity segment",
+        assumptions=["the compiled code behaves like the model on histories that were not explored"],
     ),
 }
